@@ -70,11 +70,23 @@ def run_overlays(ctx):
     return [json.loads(l) for l in open(out1)] + [json.loads(l) for l in open(out2)]
 
 
-def eval_unit(ctx, cases):
+def eval_unit(ctx, cases, chunk=2500):
+    """evaluated in chunks (bounded memory); indices are mapped back to the full lists"""
     cands = [c for c in cases if c['kind'] == 'cand']
     seqs = [c for c in cases if c['kind'] == 'seq']
     fcmrs = [c for c in cases if c['kind'] == 'fcmr']
     cleans = [c for c in cases if c['kind'] == 'cleanup']
+    res = {'U1': [], 'U2': [], 'U3': [], 'U4': [], 'U5': [], 'fcmr_in_domain': 0}
+    n = max(len(cands), len(seqs), len(fcmrs), len(cleans), 1)
+    for i in range(0, n, chunk):
+        r = eval_unit_chunk(ctx, cands[i:i + chunk], seqs[i:i + chunk], fcmrs[i:i + chunk], cleans[i:i + chunk], i // chunk)
+        for k in ('U1', 'U2', 'U3', 'U4', 'U5'):
+            res[k] += [i + x for x in r[k]]
+        res['fcmr_in_domain'] += r['fcmr_in_domain']
+    return cands, seqs, fcmrs, cleans, res
+
+
+def eval_unit_chunk(ctx, cands, seqs, fcmrs, cleans, idx):
     v = ['From Regal Require Import Check.C13Check.', 'Open Scope N_scope.']
     v.append('Definition cands : list cand_case := ' + clist('(%s, %s)' % (cstr(b64(c['in'])), cstr(b64(c['out']))) for c in cands) + '.')
     v.append('Definition seqs : list seq_case := ' + clist(seq_term(c) for c in seqs) + '.')
@@ -90,13 +102,13 @@ def eval_unit(ctx, cases):
     v.append('Definition U5 := Eval vm_compute in failing cleanup_agrees 0 cleans.')
     v.append('Definition U6 := Eval vm_compute in length (filter fcmr_in_domain fcmrs).')
     v.append('Print U1. Print U2. Print U3. Print U4. Print U5. Print U6.')
-    rc, out = vlib.coq_eval(ctx, 'Cases_C13_unit', '\n'.join(v))
+    rc, out = vlib.coq_eval(ctx, 'Cases_C13_unit_%d' % idx, '\n'.join(v))
     if rc != 0:
         raise RuntimeError('unit case evaluation failed:\n' + out[-3000:])
     res = {k: vlib.parse_nat_list(out, k) for k in ('U1', 'U2', 'U3', 'U4', 'U5')}
     m6 = re.search(r'U6 = (\d+)', out)
     res['fcmr_in_domain'] = int(m6.group(1)) if m6 else 0
-    return cands, seqs, fcmrs, cleans, res
+    return res
 
 
 # ------------------------------------------------------------------------------------------ workspaces
@@ -180,7 +192,17 @@ def ws_term(r, classify_fn=None):
         cmap(snap_ids(r['after'], ids)), cstrs(npath(d) for d in r['after']['dirs']))
 
 
-def eval_ws(ctx, results, name='Cases_C13_ws'):
+def eval_ws(ctx, results, name='Cases_C13_ws', chunk=300):
+    """evaluated in chunks: one coqc over thousands of trees needs gigabytes"""
+    bad, leaves = [], []
+    for i in range(0, len(results), chunk):
+        b, l = eval_ws_chunk(ctx, results[i:i + chunk], '%s_%d' % (name, i // chunk))
+        bad += [i + x for x in b]
+        leaves += l
+    return bad, leaves
+
+
+def eval_ws_chunk(ctx, results, name):
     v = ['From Regal Require Import Check.C13Check.', 'Open Scope N_scope.']
     v.append('Definition wss : list ws_case := ' + clist(ws_term(r) for r in results) + '.')
     v.append('Definition W1 := Eval vm_compute in failing ws_agrees 0 wss.')
